@@ -29,6 +29,7 @@ import ast
 import importlib
 import inspect
 import json
+import contextlib
 import os
 import shutil
 import sys
@@ -154,8 +155,20 @@ def _call(site, fn, name, payload, flags, real_tag=None):
     return meth(proxy)
 
 
-def _path(role, name=GHOST_NAME):
-    return name + SUFFIX[role]
+def _path(role, name=None):
+    return (GHOST_NAME if name is None else name) + SUFFIX[role]
+
+
+@contextlib.contextmanager
+def _named(basename):
+    """run a block with another checkpoint file name (the property quantifies over the name: with or without a .json extension, dots, dashes)"""
+    g = globals()
+    old = g["GHOST_NAME"]
+    g["GHOST_NAME"] = os.path.join(os.path.dirname(old), basename)
+    try:
+        yield
+    finally:
+        g["GHOST_NAME"] = old
 
 
 # ================================================================================================
@@ -402,7 +415,7 @@ def real_sequence(args):
             shutil.rmtree(tmp, ignore_errors=True)
             raise RuntimeError("temporary directory %s lies inside %s" % (tmp, forbidden))
     try:
-        name = os.path.join(tmp, "checkpoint.json")
+        name = os.path.join(tmp, os.path.basename(GHOST_NAME))
         tags = {"v0": 100, "s_old": 80, "s_new": 90}
         pre_label = {"name": "v0", "old": "s_old", "new": "s_new"}
         for r in ROLES:
@@ -619,7 +632,8 @@ def _path_to(parent, s, flags):
 def _ob_reach(flagname, steps):
     parent, order, _ = _reach(flagname, steps)
     if GOOD not in parent or len(order) < 2:
-        raise RuntimeError("reachability fix-point is degenerate: %s" % order)
+        raise Undecided("reachability fix-point is degenerate (%s): the function never changes the files the contract has a role for "
+                        "(<name>, <name>.old, <name>.new) - it writes elsewhere" % [_fmt_state(x) for x in order])
     return {"backend": "enum", "cases": len(order),
             "statement": "least fix-point of {good} under 'call with flags=%s, crash at any point or complete': %d abstract states: %s; "
                          "violating Inv (not expanded): %s" % (flagname, len(order), [_fmt_state(s) for s in order],
@@ -996,6 +1010,19 @@ def obligations(tier, seed):
         add("C18.a.site.exit[site=%s,pre=%s]" % (site, _fmt_state(GOOD)), (lambda site=site: _ob_exit(GOOD, "default", steps, site)),
             "(a) main clause through the real call site")
 
+    # other checkpoint names (the temporary / backup names are derived from it): no extension, another extension, dots in the stem
+    for base in ("checkpoint", "run-1.ckpt", "my.run.v2.json"):
+        def named(f, base=base):
+            def g():
+                with _named(base):
+                    return f()
+            return g
+        add("C18.a.crash[name=%s,pre=%s]" % (base, _fmt_state(GOOD)), named(lambda: _ob_crash(GOOD, "default", steps)), "(a) main clause: crash states, other file names")
+        add("C18.a.exit[name=%s,pre=%s]" % (base, _fmt_state(GOOD)), named(lambda: _ob_exit(GOOD, "default", steps)), "(a) main clause: exit state, other file names")
+        add("C18.a.crash[name=%s,pre=%s]" % (base, _fmt_state((COMPLETE, ABSENT, PARTIAL))), named(lambda: _ob_crash((COMPLETE, ABSENT, PARTIAL), "default", steps)),
+            "(a) main clause: crash states, other file names")
+        add("C18.a.site.crash[site=Optimizer.save_full_state,name=%s]" % base, named(lambda: _ob_crash(GOOD, "default", steps, "Optimizer.save_full_state")),
+            "(a) main clause through the real call site, other file names")
     # (b): the reachable set is computed here (milliseconds) so that every reachable state gets a named obligation
     try:
         parent, order, _ = _reach("default", steps)
